@@ -144,14 +144,20 @@ var Scenarios = map[string]Scenario{}
 
 // ScenarioInfo carries the constant descriptions used in evidence files.
 type ScenarioInfo struct {
-	Rule        string   // how runs are generated and what makes one non-trivial/distinct
-	Assumptions []string // trusted base / assumptions
-	Real        []string // components that ran real code
-	Stubs       []string // components that are simulator stubs
-	QuickRuns   int
+	Rule         string   // how runs are generated and what makes one non-trivial/distinct
+	Assumptions  []string // trusted base / assumptions
+	Real         []string // components that ran real code
+	Stubs        []string // components that are simulator stubs
+	QuickRuns    int
 	ThoroughRuns int
-	Level       string // evidence level
-	NeedsInstr  bool   // runs against the instrumented scratch copy
+	Level        string // evidence level
+	NeedsInstr   bool   // runs against the instrumented scratch copy
+	// EnumSpace, when non-zero, is the size of the finite dimension the
+	// thorough tier enumerates completely (C20: fault vectors); EnumRepeat is
+	// how many sampled contexts run per enumerated element.
+	EnumSpace  int
+	EnumRepeat int
+	EnumWhat   string
 }
 
 // Infos maps property ids to their evidence descriptions.
